@@ -186,15 +186,10 @@ def process_alignment(line, nodes, offset):
 def compare_gaf(al1, al2):
     # Since we are sorting in ascending order, al1 is above al2 if it comes before al2.
     # Have to consider the case when the start node is untagged and has BO and NO has -1. These should be sorted to the end and not the start
-    if al1.BO == -1 and al2.BO == -1:
-        if al1.offset < al2.offset:
-            return -1
-        else:
-            return 1
-    elif al1.BO == -1:
+    if al1.BO == -1 and al2.BO != -1:
         return 1
-    elif al2.BO == -1:
-        return 1
+    if al2.BO == -1 and al1.BO != -1:
+        return -1
 
     # Comparing BO tags
     if al1.BO < al2.BO:
@@ -205,7 +200,7 @@ def compare_gaf(al1, al2):
     # Comparing NO tags
     if al1.NO < al2.NO:
         return -1
-    if al1.BO > al2.BO:
+    if al1.NO > al2.NO:
         return 1
 
     # Comparing start position in node
@@ -219,6 +214,7 @@ def compare_gaf(al1, al2):
         return -1
     if al1.offset > al2.offset:
         return 1
+    return 0
 
 
 def write_to_file(line, writer):
